@@ -632,11 +632,11 @@ func runC06(c *Ctx, _ []string) {
 // ------------------------------------------------------------------ C09
 func runC09(c *Ctx, _ []string) {
 	r := NewRng(c.Seed ^ 0x0909)
-	n := 14 * c.Scale
+	n := 14 * min(c.Scale, 6) // thorough: 84 streams, every cut of the first ones (measured: about 10 minutes alone)
 	c.Stats["samples"] = []any{}
 	nontrivial := 0
 	exhaustive := true
-	c09Budget := 400000
+	c09Budget := 150000
 	for i := 0; i < n; i++ {
 		cfg := randCfg(r, false)
 		cfg.Block = []uint{1024, 1024, 2048, 4096}[r.Intn(4)]
@@ -661,7 +661,7 @@ func runC09(c *Ctx, _ []string) {
 		desc := map[string]any{"cfg": cfg.String(), "data": describe(shape, size, dseed), "stream_len": len(stream)}
 		cuts := []int{}
 		if len(stream) <= 4200 && c.Scale == 1 || c.Scale > 1 && len(stream) <= 20000 && c09Budget >= len(stream) {
-			// every cut (thorough: for streams up to 20000 bytes, within a total of 400000 cuts per run, then boundary-focused + random)
+			// every cut (thorough: for streams up to 20000 bytes, within a total of 150000 cuts per run, then boundary-focused + random)
 			if c.Scale > 1 {
 				c09Budget -= len(stream)
 			}
@@ -837,10 +837,10 @@ func runC11(c *Ctx, _ []string) {
 // ------------------------------------------------------------------ C02
 func runC02(c *Ctx, _ []string) {
 	r := NewRng(c.Seed ^ 0x0202)
-	n := 16 * c.Scale
+	n := 16 * min(c.Scale, 6) // thorough: 96 streams, the first ones flipped exhaustively (measured: about 10 minutes alone)
 	c.Stats["samples"] = []any{}
 	nontrivial := 0
-	exhaustLeft := 150000
+	exhaustLeft := 60000
 	for i := 0; i < n; i++ {
 		cfg := randCfg(r, false)
 		cfg.Checksum = []uint{32, 64}[r.Intn(2)]
@@ -911,7 +911,7 @@ func runC02(c *Ctx, _ []string) {
 		}
 		flips := 150
 		if c.Scale > 1 && len(pos) < 40000 && exhaustLeft >= len(pos) {
-			flips = len(pos) // exhaustive single-bit flips, within a total of 150000 per run (then sampled as in the quick tier)
+			flips = len(pos) // exhaustive single-bit flips, within a total of 60000 per run (then sampled as in the quick tier)
 			exhaustLeft -= len(pos)
 			c.Count("streams_flipped_exhaustively", 1)
 		}
